@@ -433,6 +433,9 @@ class FileResponse(StreamResponse):
             self._headers[hdrs.CONTENT_RANGE] = (
                 f"bytes {real_start}-{real_start + count - 1}/{file_size}"
             )
+            # Content-Range describes a slice of the file as stored: the slice
+            # must not be content-coded on the fly.
+            self._compression = False
 
         # If we are sending 0 bytes calling sendfile() will throw a ValueError
         if count == 0 or must_be_empty_body(request.method, status):
